@@ -6,6 +6,8 @@ import Proofs.C16.Table
 import Proofs.C16.Shift
 import Proofs.C16.TableSound
 import Proofs.C16.T0
+import Proofs.C16.Total
+import Proofs.C16.Ctor
 /-!
 # C16 — the property-level statements proved from the lemmas of `Proofs/C16/*`
 -/
@@ -69,6 +71,11 @@ theorem prefix_determinism {n k z : Nat} (hk : k ≤ n) {m : List (List Nat)}
   unfold tokensByInstanceID
   rw [hs']
   simp [Except.map, he]
+
+theorem tokens_length {n z : Nat} {m : List (List Nat)} (h : tokensByInstanceID n z = .ok m) :
+    m.length = n + 1 := by
+  obtain ⟨s, hs, rfl⟩ := tokens_ok h
+  exact (genUpTo_prefix n s hs).1
 
 theorem all_tokens_agree {n k z : Nat} (hk : k ≤ n) {m : List (List Nat)}
     (h : tokensByInstanceID n z = .ok m) :
@@ -241,6 +248,17 @@ theorem zone_translation {z n : Nat} (hz : z < 8) {m0 : List (List Nat)}
   unfold tokensByInstanceID
   rw [genUpTo_sh hz n s0 hs0 habs]
   rfl
+
+/-- generation is total in the kernel-checked range, with strictly increasing tokens. -/
+theorem generation_total_table {z n : Nat} (hz : z < 8) (hn : n ≤ tableN) :
+    ∃ all, generateAllTokens n z = .ok all ∧ all.length = 512 ∧ all.Pairwise (· < ·) ∧
+      ∀ (requested : Int) (taken : List Nat), 0 ≤ requested →
+        ∃ ts, generateTokens n z requested taken = .ok ts := by
+  obtain ⟨s, hs, hd, _⟩ := finite_table hz hn
+  have ea : generateAllTokens n z = .ok (sortTokens (s.toks.getD n [])) := by
+    unfold generateAllTokens tokensByInstanceID; rw [hs]; rfl
+  exact ⟨_, ea, (all_tokens_contract hz ea).1, all_tokens_strict hz hs hd ea,
+    fun req taken hr => generateTokens_total taken ea hr⟩
 
 theorem small_of_table (z : Nat) (hz : z < 8) : (genUpTo z 1).map (·.degenerate) = .ok false := by
   obtain ⟨s, hs, hd, _⟩ := finite_table (n := 1) hz (by decide)
